@@ -46,6 +46,15 @@ ASSUMPTIONS.append(
     "NaN only against NaN; the exact-rational pipeline model is not asked about the twin frames (float "
     "overflow / rounding at 1e300 is outside it) "
     "(counted as pipeline_skip:infinite values)")
+ASSUMPTIONS.append(
+    "names of called functions are not variables: for a share of the cases the frame also holds columns "
+    "the formula does NOT use whose names equal the (root) names of functions the formula calls (scale, "
+    "center, I, C, T, S, bs, fun, np of np.exp(...), ...) and now and then of functions it does not call, "
+    "float or string columns with missing values written preferably into rows that are complete in the "
+    "used variables.  The judge is unchanged: Spec.C09.usedColumns reads the variables off the AST "
+    "(callees, keyword names and subset levels are not variables), so these columns must neither appear "
+    "in var_names nor remove a row under 'drop' nor raise under 'error' nor turn an entry into NaN under "
+    "'pass'; the callee itself is resolved in the namespace, never in the data")
 TRUSTED = ["pandas isna / boolean row selection (modelled by incompleteRows / keepRows)"]
 
 TERMS = ["x", "z", "f", "g", "f:x", "np.exp(z / 4)", "I(x + z)", "{z * 2}", "C(f)", "center(x)",
@@ -70,6 +79,54 @@ RARE_GROUPS = ["(1 | ro)", "(x | ru)", "(z | C(ro))", "(0 + x | ro)", "(1 | ru:h
 LEVELLED = ["f", "g", "h", "cu", "co", "ro", "ru"]
 CORPUS = ["y ~ x + (z | g)", "y ~ fun(x, k=z)", "y ~ `w z` + f", "yc ~ x", "y ~ f:x + (x | h)",
           "y ~ I(x + z) + C(f)"]
+
+
+CALLEE_EXTRA = ["scale", "center", "I", "C", "T", "S", "fun", "np", "bs", "p", "standardize", "exp"]
+
+
+def callee_roots(formula):
+    """root names of the functions a formula calls: 'scale' of scale(x), 'np' of np.exp(z / 4)"""
+    text = re.sub(r"`[^`]*`", " ", formula)
+    out = []
+    for m in re.finditer(r"([A-Za-z_][A-Za-z_0-9]*(?:\.[A-Za-z_][A-Za-z_0-9]*)*)\s*\(", text):
+        root = m.group(1).split(".")[0]
+        if root not in out:
+            out.append(root)
+    return out
+
+
+def add_callee_columns(rc, data, formula):
+    """-> (frame, {column: missing positions}): unused columns named like called functions, with
+    missing values (preferably in rows that are complete in the variables the formula uses)"""
+    names = [c for c in callee_roots(formula) if c not in data.columns]
+    if names and rc.random() < 0.5:
+        names = rc.sample(names, rc.randrange(1, len(names) + 1))
+    if rc.random() < 0.3 or not names:
+        more = rc.choice(CALLEE_EXTRA)
+        if more not in names and more not in data.columns:
+            names.append(more)
+    used = formula_columns(formula, data)
+    n = len(data)
+    complete = [i for i in range(n) if not data[used].iloc[i].isna().any()] if used else list(range(n))
+    out = data.copy()
+    written = {}
+    for c in names:
+        rows = set(rc.sample(range(n), rc.randrange(1, max(2, n // 3))))
+        if complete:
+            rows |= set(rc.sample(complete, min(len(complete), rc.randrange(1, 3))))
+        rows = sorted(rows)
+        if rc.random() < 0.7:
+            vals = [rc.randrange(-6, 7) / 2 for _ in range(n)]
+            for i in rows:
+                vals[i] = np.nan
+            out[c] = pd.Series(vals, index=out.index, dtype=float)
+        else:
+            vals = [rc.choice(["r", "s", "t"]) for _ in range(n)]
+            for i in rows:
+                vals[i] = None if rc.random() < 0.5 else np.nan
+            out[c] = pd.Series(vals, index=out.index, dtype=object)
+        written[c] = rows
+    return out, written
 
 
 INF_COLS = ["y", "x", "z", "w z"]                  # float columns (nullable Int64 / boolean cannot hold inf)
@@ -339,6 +396,8 @@ def explore(tier, seed, res=None, replay=None):
                 "the cases one level of a used categorical occurs only in rows that are incomplete "
                 "because of another used variable; for a share of the cases a twin frame with +-inf / "
                 "huge finite values in used float columns (infinite is not missing); "
+                "for half of the cases unused columns named like the functions the formula calls, with "
+                "missing values in rows complete in the used variables (callees are not variables); "
                 "non-trivial = a case with at least one incomplete used row; distinct by (formula, "
                 "pattern, plain / history / infinite twin)")
     n_cases = 300 if tier == "quick" else 8000
@@ -383,19 +442,25 @@ def explore(tier, seed, res=None, replay=None):
         if rr.random() < 0.5:
             data, more, tied = tie_level(rr, data, formula)
             cols = cols + [c for c in more if c not in cols]
+        # unused columns named like the functions the formula calls (own PRNG stream)
+        rc = rng_for(seed, "c09", path, "callee-columns")
+        callee = None
+        u_callee = rc.random()
+        if (u_callee < 0.5 if replay is None else "unused_columns_named_like_called_functions" in replay):
+            data, callee = add_callee_columns(rc, data, formula)
         data = designs.scramble_index(r, data)       # incl. non-unique row labels
         if tied:
             res.count("a level of a used categorical occurs only in incomplete rows")
             res.count("... of an " + ("ordered" if tied["of"] in ("co", "ro") else "unordered / string")
                       + " column")
-        jobs.append((formula, path, data, pointwise, cols, None, tied, None))
+        jobs.append((formula, path, data, pointwise, cols, None, tied, None, callee))
         # infinite twin: the same frame with +-inf / huge finite values in used float columns
         ri = rng_for(seed, "c09", path, "infinite")
         u_inf = ri.random()
         if replay is not None or u_inf < 0.35:
             data_inf, _, written = write_infinite(ri, data, formula)
             # (the columns that still hold missing values are the ones of `cols`)
-            jobs.append((formula, path, data_inf, pointwise, cols, None, None, written))
+            jobs.append((formula, path, data_inf, pointwise, cols, None, None, written, callee))
         # history twin: the same frame object evaluated, edited in place, evaluated again
         rh = rng_for(seed, "c09", path, "history")
         u_hist = rh.random()
@@ -409,15 +474,19 @@ def explore(tier, seed, res=None, replay=None):
             now = apply_edits(data.copy(deep=True), edits)      # the frame at the time of the 2nd call
             jobs.append((formula, path, now, pointwise,
                          cols + [e[1] for e in edits if e[0] != "fill" and e[1] not in cols], hist, None,
-                         None))
+                         None, callee))
     rows_req = [{"op": "c09_rows", "formula": f, "frame": frame_json(d), "action": "drop"}
-                for f, _, d, _, _, _, _, _ in jobs]
+                for f, _, d, _, _, _, _, _, _ in jobs]
     rows_out = ask(rows_req)
     spec_reqs, owners = [], []
     pipe_reqs, pipe_owners = [], []
-    for (formula, path, data, pointwise, cols, hist, tied, infw), ro in zip(jobs, rows_out):
+    for (formula, path, data, pointwise, cols, hist, tied, infw, callee), ro in zip(jobs, rows_out):
         res.evaluations += 1
         case = {"formula": formula, "seed_path": path, "missing_in": cols}
+        if callee:
+            case["unused_columns_named_like_called_functions"] = {
+                c: {"missing_at_positions": rows} for c, rows in callee.items()}
+            res.count("frames with unused columns named like called functions (with missing values)")
         if infw:
             case["infinite_or_huge_values_written"] = infw
             res.count("twin frames with +-inf / huge finite values in used float columns")
